@@ -1,6 +1,6 @@
 #!/bin/bash
 # usage: tools/seed_confirm.sh <id> <variant>   -- re-checks a sub-agent's seeded change in ITS scratch worktree
-id=$1; v=$2; wt=/tmp/seed_$id; out=$wt/OUT/$v
+id=$1; v=$2; wt=${SEED_ROOT:-/tmp/seed}_$id; out=$wt/OUT/$v
 cd $wt || exit 2
 git checkout -q -- src
 git apply --check $out/patch.diff || { echo "$id/$v: patch does not apply"; exit 1; }
